@@ -239,10 +239,10 @@ def main(argv=None):
     evidence = {
         "property_id": prop, "tier": tier, "seed": seed, "level": "proof",
         "coverage": {
-            "obligations": len(obligations),
-            "discharged": discharged + under_exclusion,
-            "discharged_outright": discharged,
-            "discharged_under_exclusion": under_exclusion,
+            "obligations": len(obligations) - under_exclusion,
+            "discharged": discharged,
+            "obligations_failing_as_recorded_known_findings": under_exclusion,
+            "obligations_generated_total": len(obligations),
             "checker_cmd": f"./check {prop} --tier {tier}",
             "trusted_base": list(getattr(pack, "TRUSTED", [])) + [
                 "pyvc engine (AST->VC generator, builtin models)", "z3 5.1.0 (python API)", "cvc5 1.0.3 (CLI, unknowns only)",
